@@ -56,6 +56,12 @@ UNIT_LAWS: Dict[str, Tuple[str, str, str]] = {
     "prefix-divided-by-only": ("x / (q * One)", "q**-1 * x", ""),
     "prefix-only-left-over": ("((q * x) / x) / y", "(q * x) / (x * y)", ""),
     "prefix-only-times": ("(q * One) * y", "q * y", ""),
+    # k: a REGISTERED base unit as it is (real object, real dimension, its own name and symbol): code
+    # that looks at what a unit is called (kilogram = kilo + gram) meets the real registries here
+    "prefix-on-registered-unit-divides": ("(q * k) / k", "q * (k / k)", ""),
+    "prefix-on-registered-unit-times": ("(q * k) * y", "q * (k * y)", ""),
+    "prefix-stacks-on-registered-unit": ("r * (q * k)", "(r * q) * k", ""),
+    "prefix-on-registered-unit-undone": ("q**-1 * (q * k)", "k", ""),
 }
 DIM_LAWS = {k: v for k, v in UNIT_LAWS.items() if "prefix" not in k}
 PREFIX_LAWS = {
@@ -115,7 +121,7 @@ def run_law(kind: str, law: Tuple[str, str, str], bases: List[str], pbases: Tupl
                 return im.shadow_unit(pre, fs, dim)
 
             env.update(x=opnd("x", [0, 1], pbases[0]), y=opnd("y", [1, 2], pbases[1]),
-                       z=opnd("z", [0, 2], pbases[2]), One=One, I=measured.IdentityPrefix)
+                       z=opnd("z", [0, 2], pbases[2]), One=One, I=measured.IdentityPrefix, k=bs[2])
             if "q" in law[0] + law[1]:
                 qb = pbases[0] or 10
                 env.update(q=im.shadow_prefix(qb, SInt(z3.Int("q_e"))), r=im.shadow_prefix(qb, SInt(z3.Int("r_e"))))
@@ -163,7 +169,7 @@ def replay(kind: str, lawname: str, law: Tuple[str, str, str], bases: List[str],
             e = " * ".join(f"measured.Unit.named({bases[i]!r})**{g(f'{tag}_e{i}')}" for i in idx)
             return f"(measured.Prefix({pb}, {g(tag + '_p')}) * ({e}))" if pb else f"({e})"
         defs = (f"x = {opnd('x', [0, 1], pbases[0])}\ny = {opnd('y', [1, 2], pbases[1])}\n"
-                f"z = {opnd('z', [0, 2], pbases[2])}\nOne = measured.One\nI = measured.IdentityPrefix\n"
+                f"z = {opnd('z', [0, 2], pbases[2])}\nOne = measured.One\nI = measured.IdentityPrefix\nk = measured.Unit.named({bases[2]!r})\n"
                 f"q = measured.Prefix({pbases[0] or 10}, {g('q_e', 1)})\nr = measured.Prefix({pbases[0] or 10}, {g('r_e', 1)})\n")
     elif kind == "dimension":
         defs = "".join(f"{t} = measured.Dimension({tuple([0] + [g(f'{t}_g{j}') for j in range(1, N)])!r})\n"
